@@ -1076,6 +1076,8 @@ class Interp(object):
         return True
       raise Unsupported("truth of symbolic string")
     if isinstance(v, Term):
+      if v.op.endswith("serialize") and v.args and v.args[0] is not None:
+        return True          # K2: the serialised form of an object is a non-empty dict
       raise Unsupported("truth of opaque term %r" % (v,))
     if isinstance(v, ExtAttr):
       raise Unsupported("truth of %r" % (v,))
@@ -1506,8 +1508,25 @@ class Interp(object):
             for kk, vv in k.items():
               if kk not in target.attrs:
                 ip.setattr(target, kk, vv)
+            merged = dict(target.attrs.get("__base_kwargs__", {}))
+            merged.update(k)
+            ip.setattr(target, "__base_kwargs__", merged)
+            if a:
+              ip.setattr(target, "__base_args__", tuple(a))
+              # keras.layers.RNN(cell, ...): the one external base constructor called positionally
+              if "cell" not in target.attrs:
+                ip.setattr(target, "cell", a[0])
+              merged = dict(merged)
+              merged["cell"] = a[0]
+              ip.setattr(target, "__base_kwargs__", merged)
             return None
           return Builtin("object.__init__", ext_init)
+        if name == "get_config" and isinstance(obj.self_val, Obj) and "__base_kwargs__" in obj.self_val.attrs:
+          # K1: the external base class reports the keyword arguments its constructor was given
+          target = obj.self_val
+          # (Keras' BatchNormalization.get_config does not report fused / renorm(False) / virtual_batch_size / adjustment)
+          omit = ("fused", "renorm", "virtual_batch_size", "adjustment")
+          return Builtin("base.get_config", lambda ip: {k: v for k, v in target.attrs["__base_kwargs__"].items() if k not in omit})
         if name in ("__init__", "__init_subclass__", "__setattr__"):
           return Builtin("object." + name, lambda ip, *a, **k: None)
         if self.term_mode:
@@ -1761,6 +1780,11 @@ class Interp(object):
       raise Unsupported("call of object %r" % (f,))
     if isinstance(f, ExtAttr):
       if self.term_mode:
+        if f.path.endswith("serialize") and args and args[0] is None:
+          return None                      # Keras: serialize(None) / deserialize(None) is None
+        if f.path.split(".")[-2:] in (["constraints", "get"], ["regularizers", "get"], ["initializers", "get"]) \
+            and args and args[0] is None:
+          return None                      # Keras: constraints/regularizers/initializers.get(None) is None
         return Term(f.path, args, kwargs)
       raise Unsupported("call of unmodelled library function %s" % f.path)
     if isinstance(f, Term):
